@@ -931,8 +931,7 @@ where
 //@ fn impl<V, E> Graph<V, E> :: fn compute_loops loops=4
 //@ rewrite 1 `for (tail, header) in self.compute_back_edges(head)? {` => `let back__ = self.compute_back_edges(head)?; for e__ in it: back__.iter() { let (tail, header) = *e__;` ## R-iter-copy: by-value iteration over a temporary HashSet of Copy pairs = binding it to a local and iterating by reference, copying each pair (Verus has no model of hash_set::IntoIter)
 //@ rewrite 1 `let nodes = loops.entry(header).or_default();` => `if !loops.contains_key(&header) { loops.insert(header, BTreeSet::new()); } let nodes = loops.get_mut(&header).unwrap();` ## R-entry-or-default: `map.entry(k).or_default()` is by definition: insert `Default::default()` (= `BTreeSet::new()`) if k is absent, then return a mutable reference to the value at k
-//@ rewrite 1 `for &predecessor in` => `for predecessor__r in it2:` ## R-ref-pattern: `for &x in ITER { BODY }` is `for x__r in ITER { let x = *x__r; BODY }` for Copy items (part 1 of 2)
-//@ rewrite 1 `{ if reachable.contains(&predecessor)` => `{ let predecessor = *predecessor__r; if reachable.contains(&predecessor)` ## R-ref-pattern: part 2 of 2
+//@ rewrite 1 `for &predecessor in &self.predecessors[&node] {` => `for predecessor__r in it2: &self.predecessors[&node] { let predecessor = *predecessor__r;` ## R-ref-pattern: `for &x in ITER { BODY }` is `for x__r in ITER { let x = *x__r; BODY }` for Copy items
 //@ rewrite 1 `Ok(loops .iter() .map(|(&header, nodes)|` => `Ok({ let mut out__: Vec<Loop> = Vec::new(); for kv__ in it: loops.iter() { let (header, nodes) = (*kv__.0, kv__.1); out__.push(` ## R-map-collect: `ITER.map(|(&k, v)| F).collect::<Vec<_>>()` is by definition the loop pushing F for every entry (part 1 of 2; F stays the original tokens)
 //@ rewrite 1 `) .collect())` => `); } out__ })` ## R-map-collect: part 2 of 2
 //@ spec
@@ -996,7 +995,7 @@ where
         forall|i: int| 0 <= i < queue@.len() ==> self.vertices@.contains_key(#[trigger] queue@[i]),
         nodes@.len() <= self.vertices@.dom().len(),
         self.vertices@.dom().len() - nodes@.len() + queue@.len() == self.vertices@.dom().len() - n0.len() + q0.len(),
-//@ before 0 `if reachable.contains(&predecessor) && nodes.insert(predecessor)`
+//@ after 0 `let predecessor = *predecessor__r;`
     let ghost qb = queue@;
     proof {
         lemma_seq_lists_set_ref(it2.seq(), self.predecessors@[node]@);
